@@ -50,7 +50,8 @@ def build(case):
         over.update(nu=0.3)
     tr = synth.truth_params(mk, **over)
     n = case["n"]
-    arr = synth.make_arrays(mk, tr, n_app=n, n_ret=n, x_start=XSTART,
+    arr = synth.make_arrays(mk, tr, n_app=n, n_ret=n,
+                            x_start=case.get("x_start", XSTART),
                             depth=DEPTH, nonuniform=case["nonuniform"])
     # the curve follows the *documented* model: generated with the
     # independent literature reference, not with nanite's own function
@@ -224,7 +225,22 @@ def cases(tier):
                 d = dict(c)
                 d["range"] = rk
                 sub.append(d)
-    return cs + sub
+    # very short curves (5, 6 and 9 samples per segment, short baseline so
+    # that at least three samples are indented): still exactly determined
+    short = []
+    seen = set()
+    for c in cs:
+        if c["noise"] == 0.0 and c["method"] == "leastsq" \
+                and not c["nonuniform"]:
+            for n in (5, 6, 9):
+                d = dict(c)
+                d.update(n=n, x_start=0.6e-6)
+                key = repr(sorted((k, repr(v)) for k, v in d.items()
+                                  if k != "kw_order"))
+                if key not in seen:
+                    seen.add(key)
+                    short.append(d)
+    return cs + sub + short
 
 
 def replay(doc):
